@@ -62,7 +62,7 @@ def conforms(v, t):
     if isinstance(v, bool):
         return False
     if rt.is_any(t):
-        return True
+        return False     # the element type of the empty set: no value can sit at such a position
     if t[0] == 'e':
         return isinstance(v, int)
     if t[0] == 't':
